@@ -68,6 +68,7 @@ def main() -> int:
         mod = importlib.import_module(f"sa.props.{prop.lower()}")
         ctx = Context(args.repo)
         col = report.Collector(prop)
+        col.repo = ctx.repo
         mod.run(ctx, col, args.tier)
         col.analysed.update(ctx.stats())
         if args.replay:
